@@ -241,7 +241,7 @@ macro_rules! ctr_anypos {
             let mut ks = [0u8; NB * B];
             spec::ctr_ks(c.p(), $spec, &iv, pos as u128, &mut ks);
             let mut core = ctr::CtrCore::<_, ctr::flavors::$flavor>::inner_iv_init(c.clone(), blk::<$bs>(&iv));
-            core.set_block_pos(pos);
+            core.set_block_pos(pos as _);
             let mut s = StreamCipherCoreWrapper::from_core(core);
             let base = pos as u128 * B as u128;
             check_pos!(s, base);
